@@ -36,11 +36,11 @@ CLAIMS = {
         "macro bodies without agg (conditions may be attached to clauses since fix 3a6dc9a), at most 100 parameters, call-site aggregations list their bound variables; the first drafts without the "
         "last two were false as artefacts of the encoding (counterexamples CE.* kept). Tie: generated programs with macros (same macro twice in a rule, call-site "
         "variable spelled like a macro-local one, nested invocations incl. locals bound only through nested arguments, attached conditions, head macros) compiled and compared with the printed ideal expansion, the naive oracle and "
-        "the Lean model; 11 recursive-macro shapes through the in-process pipeline. Known findings: F26 (expr parameter pasted as raw tokens), FM8 (self-reference through a disjunction not rejected in feasible time), F27 (`?None` "
+        "the Lean model; 11 recursive-macro shapes through the in-process pipeline. Known findings: F26 (expr parameter pasted as raw tokens), F27 (`?None` "
         "in a macro body renamed into a binding), each with a coded class predicate and a matched prediction; F25 (attached conditions escaped the renaming) is "
-        "fixed by 3a6dc9a: theorems f25_fixed / f25_hygienic / f25_by_theorem.",
+        "fixed by 3a6dc9a: theorems f25_fixed / f25_hygienic / f25_by_theorem; FM8 (self-reference through a disjunction expanded exponentially) is fixed by deae510: FM8.branching_*_rejected.",
    design_ref="DESIGN.md §8 C08",
-   note=ENGINE_NOTE + " Token spans (hygiene marks) are modelled by per-invocation tags; F26 (token level), FM8 (time) and F27 are not modelled in Lean."),
+   note=ENGINE_NOTE + " Token spans (hygiene marks) are modelled by per-invocation tags; F26 (token level) and F27 are not modelled in Lean."),
  "C11": dict(
    engine="tie-B-engine",
    technique="Lean 4 proof that the least model of the explicit-closure twin restricted to t is the (per-key) transitive closure of the inserted tuples + "
@@ -89,7 +89,7 @@ CLAIMS = {
         "stratification test is equivalent to the declarative condition (two rules on a dependency cycle lie in one SCC), every macro reaching itself from an invocation "
         "is rejected for any budget, an aggregation over a missing bound argument / a struct-impl signature mismatch / an empty disjunction at any depth is rejected, and no stage panics. The thorough tier compiles ~285 programs "
         "with rustc (the diagnostic must point into the program). Every full-strength statement that is false of the real code has a decide-d witness and a known "
-        "finding (FM2, FM8, FM10: an accepted shadowing aggregation argument, eager exponential expansion, spurious rejections); FM1, FM3-FM7, FM9, FM11, FM12 were repaired by fix "
+        "finding (FM10: the depth budget also counts parenthesis nesting / non-recursive chains; low severity); FM1-FM9, FM11, FM12 were repaired by fix "
         "commits, their witnesses must pass, and the model's pipeline provably never panics (check_never_panics).",
    design_ref="DESIGN.md §8 C15",
    note="Lean kernel; axioms propext/Classical.choice/Quot.sound; trusted: the text->summary printer of the generator, syn, rustc diagnostics, in-process spans "
